@@ -18,3 +18,8 @@ add("C06", "exploration",
     "Held on the executions explored: no input of the enumerated lattice (type substitution in every member, envelope faults, unparsable and truncated bodies, deep/large values, unsolicited responses, HTTP-level faults) killed, wedged or panicked any of the 7 server configurations; every input owed an answer got one; well-formed traffic from an independent client kept being served; goroutines with library frames did not grow with the number of inputs.",
     "'No sequence of bytes' is sampled by an enumerated lattice plus seeded mutations (thorough); memory exhaustion is not driven; coverage-guided fuzzing is not used.",
     "DESIGN.md section 4 C06")
+add("C14", "exploration",
+    "runtime monitoring, differential: byte-identical generated requests against all server kinds/modes with identical registrations, normalised answers compared; same operations through the three client kinds, returned values compared",
+    "Held on the executions explored: for the 8 common methods every generated request (valid and invalid, string and integer ids) got the same normalised result or the same error code on Streamable (JSON, SSE, stateless, sessions disabled), legacy SSE and stdio; the three clients returned equal values / equal error classes for 19 operations.",
+    "Normalisation drops error wording, item order and session-specific strings, as the statement allows. Client comparison relies on the server part having established equal server answers.",
+    "DESIGN.md section 4 C14")
